@@ -84,8 +84,10 @@ type interpreter struct {
 	run     *runState              // the current run
 	inited  map[*ssa.Package]bool  // packages whose init ran (or is running)
 
-	onceDone map[*value]bool
-	syncMaps map[*value]*smap
+	forcing    map[*ssa.Package]bool
+	unsafeData map[*value][]value
+	onceDone   map[*value]bool
+	syncMaps   map[*value]*smap
 }
 
 type deferred struct {
@@ -122,12 +124,7 @@ func (fr *frame) get(key ssa.Value) value {
 	case *ssa.Const:
 		return constValue(key)
 	case *ssa.Global:
-		if r, ok := fr.i.globals[key]; ok {
-			if key.Pkg != nil && !fr.i.inited[key.Pkg] && !fr.i.allowUninit(key) {
-				panic(engineErrorf("read of global %s of package %s whose init is not executed (add the package to the init whitelist or the variable to the allow list)", key.Name(), key.Pkg.Pkg.Path()))
-			}
-			return r
-		}
+		return fr.i.global(key)
 	}
 	if r, ok := fr.env[key]; ok {
 		return r
@@ -537,12 +534,14 @@ func callSSA(i *interpreter, caller *frame, callpos token.Pos, fn *ssa.Function,
 				return r
 			}
 		}
-		// Package initializers run only for whitelisted packages.
+		// Package initializers: repository packages run eagerly (Go
+		// semantics), whitelisted library packages lazily on first access
+		// to one of their globals, everything else never.
 		if fn.Synthetic == "package initializer" && fn.Pkg != nil {
 			if i.inited[fn.Pkg] {
 				return nil
 			}
-			if !i.initAllowed(fn.Pkg) {
+			if !i.eagerInit(fn.Pkg) && !i.forcing[fn.Pkg] {
 				return nil
 			}
 			i.inited[fn.Pkg] = true
@@ -643,7 +642,21 @@ func runFrame(fr *frame) {
 		}
 		r := recover()
 		if !isTargetPanic(r) {
-			panic(asEngineError(r))
+			e := asEngineError(r)
+			if ee, ok := e.(engineError); ok && !strings.Contains(ee.msg, "\n  target stack:") {
+				var sb strings.Builder
+				sb.WriteString(ee.msg + "\n  target stack:")
+				for f := fr; f != nil; f = f.caller {
+					where := ""
+					if f.cur != nil {
+						where = fr.i.site(f.cur)
+					}
+					sb.WriteString("\n    " + f.fn.String() + " @ " + where)
+				}
+				ee.msg = sb.String()
+				e = ee
+			}
+			panic(e)
 		}
 		if fr.i.run.panicSite == "" && fr.cur != nil {
 			fr.i.run.panicSite = fr.fn.String() + " @ " + fr.i.site(fr.cur)
